@@ -50,9 +50,11 @@ Qed.
 Print Assumptions C16_compile_dot_assign_unbalanced_before_fix.
 
 (* ---------- the expression fragment is compiled correctly ---------- *)
-(* For every expression built from number/bool/string literals, global
-   variables, unary - and !, the binary operators on numbers and strings and
-   ==/!=  (efrag), compiled from any compiler state: wherever the emitted
+(* For every expression built from number/bool/string literals, array
+   literals `[e1 e2 …]` (nested), global variables, unary - and !, the binary
+   operators on numbers and strings, ==/!= and index reads `a[i]` on strings
+   (by code point) and arrays (negative indices count from the end; an index
+   error leaves eval_expr undefined)  (efrag), compiled from any compiler state: wherever the emitted
    segment is placed in a program whose constant table starts with the
    compiler's constants, running the VM model from the segment's first
    instruction executes exactly the segment and leaves the stack as it was
@@ -102,10 +104,20 @@ Print Assumptions C16_compile_correct_straightline.
 (* ---------- statements with control flow are compiled correctly ---------- *)
 (* Fragment psfrag: a top-level sequence of declarations `x := e` and of
    statements built from assignments `x = e` to globals, `if c … {else if c …}
-   [else …] end` chains, `while c … end` and `break` (inside a while only:
-   nb_stmt), arbitrarily nested, all expressions in efrag (_partial: no for
-   loops, block-local declarations, arrays/maps).  The boolean of a result of
-   exec_l says that a break is under way; a while loop ends it.  The semantics exec_l is a
+   [else …] end` chains, `while c … end`, `for range [start] stop [step] … end`
+   (step ranges without a loop variable anywhere, and — at TOP LEVEL only —
+   `for i := range …` WITH a loop variable, which the compiler makes a global:
+   the semantics assigns none to i, then the index in every round; a zero step
+   is a run-time error, so the semantics is undefined there; likewise
+   `for x := range iterable` over the elements of an array, the characters of
+   a string or the keys of a map, counted like the VM with a number starting
+   at 0) and `break` (inside a loop only: nb_stmt), arbitrarily nested, all expressions in efrag
+   (_partial: no loop variables inside blocks, no iterable ranges without loop
+   variable, no block-local declarations, no maps / slices / element stores).  The boolean of a result of exec_l says that a break is
+   under way; the innermost loop ends it.  The VM keeps the state of a range
+   loop (index, step, stop) on the operand stack: the simulation carries the
+   stack `base` below the statement, and OpDrop removes the state at the exit
+   and after a break.  The semantics exec_l is a
    fuel-indexed big-step semantics defined in CompileSemProofs.v on top of
    eval_expr (IEEE primitive floats); a while loop consumes fuel per iteration.
    For every such program: if the compiler succeeds and the semantics is
@@ -177,8 +189,8 @@ Print Assumptions C16_compile_wf_large_before_fix.
    LOCAL of the block's scope —, assignments `x = e` to globals and locals,
    if / else-if / else chains, while, break, `for range …` without a loop
    variable — arbitrarily nested, with all expressions in the expression
-   fragment efrag (reads of globals and locals; _partial: no arrays / maps /
-   index / slice, no function calls).  For every such program: if the compiler
+   fragment efrag (reads of globals and locals, array literals, index reads;
+   _partial: no maps / slices / element stores, no function calls).  For every such program: if the compiler
    succeeds and leaves no pending break (a break outside a loop, which the
    parser rejects), its output satisfies WF with LocalCount = the
    nestedMaxIndex of the compiler's root table:
@@ -344,6 +356,118 @@ Example C16_ex_break_defined :
   match compile ex_break with
   | COk st => match vm_run 2000 (program_of (bytecode_of st)) (vm_init (program_of (bytecode_of st))) with
               | FHalted s => nth_error (globals s) 1 = Some (VNum (float_of_Z 132))
+              | _ => False
+              end
+  | CErr _ => False
+  end.
+Proof. vm_compute. repeat split; try reflexivity. discriminate. Qed.
+
+(* x := 0; t := 0
+   for range 5: x = x + 1
+     for range 10 0 -4: t = t + x          // 10, 6, 2: three rounds
+       if t > 12: break end end end        -- x = 5, t = 24 *)
+Definition ex_for : slist :=
+  let num k := ENum (float_of_Z k) in
+  let add v e := SAssign (EVar (s_ v)) (EBin BPlus TNum TNum (EVar (s_ v)) e) in
+  SCons (SDecl (s_ "x") (num 0%Z))
+ (SCons (SDecl (s_ "t") (num 0%Z))
+ (SCons (SForStep None ONoneE (num 5%Z) ONoneE
+          (SCons (add "x" (num 1%Z))
+          (SCons (SForStep None (OSome (num 10%Z)) (num 0%Z) (OSome (num (-4)%Z))
+                    (SCons (add "t" (EVar (s_ "x")))
+                    (SCons (SIf (EBin BGt TNum TNum (EVar (s_ "t")) (num 12%Z)) (SCons SBreak SNil) CNil NoElse) SNil))) SNil))) SNil)).
+
+Example C16_ex_for_defined :
+  psfrag ex_for = true /\ (ldepth ex_for <= Gen.Opcodes.StackSize)%N /\
+  match exec_l 60 ex_for (fun _ => None) with
+  | Some (env, false) => env (s_ "x") = Some (VNum (float_of_Z 5)) /\ env (s_ "t") = Some (VNum (float_of_Z 24))
+  | _ => False
+  end /\
+  match compile ex_for with
+  | COk st => match vm_run 4000 (program_of (bytecode_of st)) (vm_init (program_of (bytecode_of st))) with
+              | FHalted s => nth_error (globals s) 1 = Some (VNum (float_of_Z 24)) /\ ostack s = []
+              | _ => False
+              end
+  | CErr _ => False
+  end.
+Proof. vm_compute. repeat split; try reflexivity. discriminate. Qed.
+
+(* t := 0
+   for i := range 1 6: t = t + i
+     if i == 4: break end end              -- t = 10, i = 4 (a global) *)
+Definition ex_forlv : slist :=
+  let num k := ENum (float_of_Z k) in
+  SCons (SDecl (s_ "t") (num 0%Z))
+ (SCons (SForStep (Some (s_ "i")) (OSome (num 1%Z)) (num 6%Z) ONoneE
+          (SCons (SAssign (EVar (s_ "t")) (EBin BPlus TNum TNum (EVar (s_ "t")) (EVar (s_ "i"))))
+          (SCons (SIf (EBin BEq TNum TNum (EVar (s_ "i")) (num 4%Z)) (SCons SBreak SNil) CNil NoElse) SNil))) SNil).
+
+Example C16_ex_forlv_defined :
+  psfrag ex_forlv = true /\ (ldepth ex_forlv <= Gen.Opcodes.StackSize)%N /\
+  match exec_l 60 ex_forlv (fun _ => None) with
+  | Some (env, false) => env (s_ "t") = Some (VNum (float_of_Z 10)) /\ env (s_ "i") = Some (VNum (float_of_Z 4))
+  | _ => False
+  end /\
+  match compile ex_forlv with
+  | COk st => match vm_run 4000 (program_of (bytecode_of st)) (vm_init (program_of (bytecode_of st))) with
+              | FHalted s => globals s = [VNum (float_of_Z 10); VNum (float_of_Z 4)] /\ ostack s = []
+              | _ => False
+              end
+  | CErr _ => False
+  end.
+Proof. vm_compute. repeat split; try reflexivity. discriminate. Qed.
+
+(* a := [10 20 30]; x := a[1] + a[-1]; s := "hello"; c := s[1]; b := [[1 2] [3]]; y := b[0][1]
+   -- x = 50, c = "e", y = 2 (array literals and index reads are in efrag) *)
+Definition ex_arr : slist :=
+  let num k := ENum (float_of_Z k) in
+  let arr3 a b c := EArr (ECons a (ECons b (ECons c ENil))) in
+  SCons (SDecl (s_ "a") (arr3 (num 10%Z) (num 20%Z) (num 30%Z)))
+ (SCons (SDecl (s_ "x") (EBin BPlus TNum TNum (EIndex (EVar (s_ "a")) (num 1%Z)) (EIndex (EVar (s_ "a")) (num (-1)%Z))))
+ (SCons (SDecl (s_ "s") (EStr (s_ "hello")))
+ (SCons (SDecl (s_ "c") (EIndex (EVar (s_ "s")) (num 1%Z)))
+ (SCons (SDecl (s_ "b") (EArr (ECons (EArr (ECons (num 1%Z) (ECons (num 2%Z) ENil))) (ECons (EArr (ECons (num 3%Z) ENil)) ENil))))
+ (SCons (SDecl (s_ "y") (EIndex (EIndex (EVar (s_ "b")) (num 0%Z)) (num 1%Z))) SNil))))).
+
+Example C16_ex_arr_defined :
+  psfrag ex_arr = true /\ (ldepth ex_arr <= Gen.Opcodes.StackSize)%N /\
+  match exec_l 20 ex_arr (fun _ => None) with
+  | Some (env, false) => env (s_ "x") = Some (VNum (float_of_Z 50)) /\ env (s_ "c") = Some (VStr [101%N]) /\
+                         env (s_ "y") = Some (VNum (float_of_Z 2))
+  | _ => False
+  end /\
+  match compile ex_arr with
+  | COk st => match vm_run 4000 (program_of (bytecode_of st)) (vm_init (program_of (bytecode_of st))) with
+              | FHalted s => nth_error (globals s) 1 = Some (VNum (float_of_Z 50)) /\ nth_error (globals s) 3 = Some (VStr [101%N]) /\
+                             nth_error (globals s) 5 = Some (VNum (float_of_Z 2))
+              | _ => False
+              end
+  | CErr _ => False
+  end.
+Proof. vm_compute. repeat split; try reflexivity. discriminate. Qed.
+
+(* t := 0; w := ""
+   for x := range [3 4 5]: t = t + x end
+   for c := range "ab": w = c + w end        -- t = 12, w = "ba", x = 5, c = "b" *)
+Definition ex_foriter : slist :=
+  let num k := ENum (float_of_Z k) in
+  SCons (SDecl (s_ "t") (num 0%Z))
+ (SCons (SDecl (s_ "w") (EStr (s_ "")))
+ (SCons (SForIter (Some (s_ "x")) TArr (EArr (ECons (num 3%Z) (ECons (num 4%Z) (ECons (num 5%Z) ENil))))
+          (SCons (SAssign (EVar (s_ "t")) (EBin BPlus TNum TNum (EVar (s_ "t")) (EVar (s_ "x")))) SNil))
+ (SCons (SForIter (Some (s_ "c")) TStr (EStr (s_ "ab"))
+          (SCons (SAssign (EVar (s_ "w")) (EBin BPlus TStr TStr (EVar (s_ "c")) (EVar (s_ "w")))) SNil)) SNil))).
+
+Example C16_ex_foriter_defined :
+  psfrag ex_foriter = true /\ (ldepth ex_foriter <= Gen.Opcodes.StackSize)%N /\
+  match exec_l 60 ex_foriter (fun _ => None) with
+  | Some (env, false) => env (s_ "t") = Some (VNum (float_of_Z 12)) /\ env (s_ "w") = Some (VStr [98%N; 97%N]) /\
+                         env (s_ "x") = Some (VNum (float_of_Z 5))
+  | _ => False
+  end /\
+  match compile ex_foriter with
+  | COk st => match vm_run 4000 (program_of (bytecode_of st)) (vm_init (program_of (bytecode_of st))) with
+              | FHalted s => globals s = [VNum (float_of_Z 12); VStr [98%N; 97%N]; VNum (float_of_Z 5); VStr [98%N]] /\ ostack s = []
               | _ => False
               end
   | CErr _ => False
